@@ -24,6 +24,11 @@ CLAIMED.update({
          "note": "Assumes [A]: match components / records as interface objects with ghost fields; generator protocol; scanner well-formedness from C02; explain-mode off.",
          "tech": TECH},
 })
+CLAIMED.update({
+ "C15": {"text": "Inversion ('return-mode no-matches returns exactly the scanned lines the default mode does not') is a postcondition of the real _consider_line, the collected/unmatched partition and 'no-run reads nothing' are postconditions of the real CsvPath.next (ghost yield list, loop invariant, unbounded); return/run/unmatched/source mode getters are proved against the documented strings. The comment scanner and print-mode's printer list are character/list state machines checked natively over a stated finite scope.",
+         "note": "Bounded (not proved): MetadataParser over comments of <=2 fields, PrintMode.update_printers over lists <=4, end-to-end mode runs over 4 files. Assumes [A]: ModeController.get reads metadata; records/match verdicts as interface objects.",
+         "tech": TECH + " + bounded native complement for the comment scanner and printer list"},
+})
 NA_REASON = {}
 m = {
  "version": 1, "setup_cmd": "./setup.sh",
